@@ -114,6 +114,7 @@ type scriptReader struct {
 	tail     error
 	withData bool
 	reads    int
+	sawEnd   bool
 }
 
 func (s *scriptReader) Read(p []byte) (int, error) {
@@ -122,6 +123,9 @@ func (s *scriptReader) Read(p []byte) (int, error) {
 		return 0, nil
 	}
 	if len(s.chunks) == 0 {
+		if s.tail == io.EOF {
+			s.sawEnd = true // a read that reports the end with no data (what sets ResponseEnded)
+		}
 		return 0, s.tail
 	}
 	c := s.chunks[0]
